@@ -82,6 +82,10 @@ func TestDifferential(t *testing.T) {
 	for _, s := range []string{"hello", "ab"} {
 		check("Bytes "+s, callNamed(t, it, "Bytes", s)[0], testfuncs.Bytes(s))
 	}
+	check("Pointers", callNamed(t, it, "Pointers")[0], testfuncs.Pointers())
+	for _, s := range []string{"ctx := new(T); x.err = v12 // c\n\"s\" len(q)", ""} {
+		check("Library "+s, callNamed(t, it, "Library", s)[0], testfuncs.Library(s))
+	}
 }
 
 // A branch on an unknown value stops the evaluation unless && / || absorb it.
